@@ -13,6 +13,7 @@ import (
 	metav1 "k8s.io/apimachinery/pkg/apis/meta/v1"
 	corev1alpha1 "package-operator.run/apis/core/v1alpha1"
 	"package-operator.run/internal/packages/zzverif/checks"
+	"package-operator.run/internal/packages/zzverif/checks/twin"
 	"package-operator.run/internal/packages/zzverif/checks/c03"
 	"package-operator.run/internal/packages/zzverif/checks/c04"
 	"package-operator.run/internal/packages/zzverif/checks/c06"
@@ -592,6 +593,18 @@ func replayBFS(v report.Violation) string {
 	return osw.ReplayBFS(bfsSystem(sc), v)
 }
 
+// twinScenarios: delegated phases of the cluster-scoped kinds (ClusterObjectSetPhase) in lockstep with the namespaced ones.
+func twinScenarios(quick bool) []twin.Scenario {
+	out := []twin.Scenario{
+		{Kind: "chain", N: 1, Mask: 0b1, Successor: true, Classes: []string{"ready"}, Third: 1},
+		{Kind: "chain", N: 2, Mask: 0b01, Classes: []string{"ready", "notready"}, Users: 2},
+	}
+	if !quick {
+		out = append(out, twin.Scenario{Kind: "chain", N: 2, Mask: 0b11, Successor: true, Classes: []string{"ready"}}, twin.Scenario{Kind: "chain", N: 1, Mask: 0b1, Successor: true, Classes: []string{"ready", "notready"}, Users: 1}, twin.Scenario{Kind: "chain", N: 3, Mask: 0b101, Successor: true, Classes: []string{"ready"}, Users: 1}, twin.Scenario{Kind: "chain", N: 2, Mask: 0b10, Classes: []string{"ready", "notready", "stale"}, Users: 2, Third: 1})
+	}
+	return out
+}
+
 func init() {
 	checks.Register(&checks.Check{
 		ID:    "C15",
@@ -614,6 +627,6 @@ func init() {
 				}
 				return 2
 			}, Run: runHandover, Replay: replayHandover, Parallel: true},
-		},
+			twin.Sub("C15", twinScenarios)},
 	})
 }
